@@ -31,7 +31,13 @@ def run(rng, tier, res=None):
         alphabet = rng.choice([[1, 2], [1, 2, 3, 4], list(range(1, 4 * size + 1)), list(range(-5, 6))])
         nops = rng.randint(1, 60 if tier == "quick" else 120)
         # ops are generated against the REAL heap so that the generator knows the exact colours
-        h = Heap(size, "max" if is_max else "min")
+        if rng.random() < 0.25:
+            # the policy chosen (or changed, while the heap is still empty) through the public property
+            h = Heap(size) if rng.random() < 0.5 else Heap(size, "min" if is_max else "max")
+            h.policy = "max" if is_max else "min"
+            res.hit("policy_via_setter")
+        else:
+            h = Heap(size, "max" if is_max else "min")
         toks = []
         segs = []
         shadow = {}            # id -> cost (queued)
